@@ -23,6 +23,7 @@ EXPLANATION = (
     ' Second session: when the announcement for one abstract point has more than one outcome (it depends on something outside the abstraction, e.g. a file size) the sender must agree with each outcome.'
     ' Third session: (completion-marker) every yield of the fragment generator for a limited maximum is dominated by the overhead subtraction, so generator and fragment count use the same payload size; (write-complete) AssociationSocket.send advances its counter by what socket.send() returned and by nothing else, resumes at the counter and ends only at the length of the stream - a short write must not lose the tail of a PDU.'
     ' Fifth round: (write-complete) the send loop is a structural rule over what is written from the stream (`written_from_stream`), whatever the slice is called; the presence predicate is computed by evaluating encode_msg on stand-ins of the abstract point; the blocking-socket premise of the loop comes from the connect model; P-DATA-TF layout borrowed from C01.'
+    ' Fifth round (end): (path-premise, second half) every primitive handed to send_msg is built by a dimse_primitives constructor in that function - never a received primitive or a copy of one, which would carry _dataset_path / DataSet into the response.'
 )
 
 
